@@ -47,6 +47,52 @@ fn answer(file: &Option<(String, Vec<u8>)>, reloaded: &Option<Vec<Vec<u64>>>) ->
     s
 }
 
+/// distribution: what the save wrote over
+fn over_count(c: &mut Ctx, table: &str, before: &[(String, Vec<u8>)], file: &Option<(String, Vec<u8>)>) {
+    if !c.keep {
+        return;
+    }
+    if let Some((name, bytes)) = file {
+        let cls = match before.iter().find(|f| &f.0 == name) {
+            None => "fresh name",
+            Some((_, old)) if old.len() > bytes.len() => "over a LONGER file",
+            Some((_, old)) if old.len() < bytes.len() => "over a shorter file",
+            Some((_, old)) if old == bytes => "over an identical file",
+            Some(_) => "over a file of the same length, different content",
+        };
+        c.run.count(&format!("sequence {table}: save {cls}"));
+    }
+}
+
+/// what the file must be, byte for byte, written down from the PostgreSQL format description and
+/// the table's own declarations: signature, zero flags, zero extension length; per row the number
+/// of COPY columns, per column the width of its declared type and the value the column name
+/// denotes; the trailer; end of file.
+fn expected_encoding(decl: &(Vec<String>, Vec<String>, Vec<(String, String)>), roles: &[&str], orig: &[Vec<u64>]) -> Option<Vec<u8>> {
+    let (cols, types, _) = decl;
+    let mut out: Vec<u8> = b"PGCOPY\n\xff\r\n\0".to_vec();
+    out.extend([0u8; 8]);
+    for row in orig {
+        out.extend((cols.len() as u16).to_be_bytes());
+        for (c, t) in cols.iter().zip(types.iter()) {
+            let v = row[roles.iter().position(|r| r == c)?];
+            match type_width(t)? {
+                8 => {
+                    out.extend(8u32.to_be_bytes());
+                    out.extend(v.to_be_bytes());
+                }
+                4 => {
+                    out.extend(4u32.to_be_bytes());
+                    out.extend((v as u32).to_be_bytes());
+                }
+                _ => return None,
+            }
+        }
+    }
+    out.extend(0xFFFFu16.to_be_bytes());
+    Some(out)
+}
+
 /// the search oracle on one saved file. `roles` names the components of `orig` rows.
 fn oracle(
     run: &mut Run, table: &str, op: &str, decl: &(Vec<String>, Vec<String>, Vec<(String, String)>), roles: &[&str],
@@ -55,8 +101,22 @@ fn oracle(
     let (cols, types, _) = decl;
     let short = |s: &str| if s.len() > 300 { format!("{}…", &s[..300]) } else { s.to_string() };
     let op = short(op);
+    // the COMPLETE file (length and every byte) is the encoding of the table just saved
+    run.spec_checked += 1;
+    match expected_encoding(decl, roles, orig) {
+        None => run.fail("declared-layout-not-encodable", &op, "known column names and types", &format!("{:?} {:?}", cols, types)),
+        Some(want) => {
+            if bytes.len() > want.len() && bytes[..want.len()] == want[..] {
+                run.fail("file-has-bytes-after-trailer", &op, &format!("{} bytes, end of file right after the trailer", want.len()), &format!("{} bytes: {} bytes follow the trailer", bytes.len(), bytes.len() - want.len()));
+            } else if bytes != &want[..] {
+                let k = bytes.iter().zip(want.iter()).position(|(a, b)| a != b).unwrap_or(bytes.len().min(want.len()));
+                run.fail("file-not-exactly-encoding", &op, &format!("{} bytes", want.len()), &format!("{} bytes, first difference at byte {k}", bytes.len()));
+            }
+        }
+    }
     run.spec_checked += 1;
     match pg_read(bytes) {
+        Err(e) if e.contains("after the trailer") => run.fail("file-has-bytes-after-trailer", &op, "end of file right after the trailer (strict reader)", &e),
         Err(e) => run.fail("file-not-wellformed-copy-stream", &op, "signature, rows, trailer", &e),
         Ok(rows) => {
             if rows.len() != orig.len() {
@@ -161,6 +221,36 @@ fn size_class(n: usize) -> &'static str {
 struct Ctx {
     run: Run,
     scr: Scratch,
+    /// sequence mode: the scratch directory is NOT emptied before a save, so save() writes over
+    /// whatever an earlier save left under the same name
+    keep: bool,
+}
+impl Ctx {
+    fn before_save(&self) -> Vec<(String, Vec<u8>)> {
+        if self.keep {
+            self.scr.files()
+        } else {
+            self.scr.clean();
+            vec![]
+        }
+    }
+}
+/// the file a save must have produced: in a fresh directory the only file there; in sequence mode
+/// the file of the expected name
+fn pick(files: &[(String, Vec<u8>)], keep: bool, expected: Option<String>) -> Option<(String, Vec<u8>)> {
+    if keep {
+        expected.and_then(|n| files.iter().find(|f| f.0 == n).cloned())
+    } else if files.len() == 1 {
+        Some(files[0].clone())
+    } else {
+        None
+    }
+}
+/// file name rule of Metric::save, restated: the entry count selects the street
+fn metric_expected_name(n: usize) -> String {
+    let c2 = |k: usize| k * k.saturating_sub(1) / 2;
+    let s = if n == c2(Street::Rive.k()) { Street::Rive } else if n == c2(Street::Turn.k()) { Street::Turn } else if n == c2(Street::Flop.k()) { Street::Flop } else if n == c2(Street::Pref.k()) { Street::Pref } else { Street::Rive };
+    format!("metric.{s}")
 }
 
 fn case_profile(c: &mut Ctx, rows: &[(Bucket, Edge, u32, u32)], decl: &(Vec<String>, Vec<String>, Vec<(String, String)>)) {
@@ -168,12 +258,13 @@ fn case_profile(c: &mut Ctx, rows: &[(Bucket, Edge, u32, u32)], decl: &(Vec<Stri
     let p = build_profile(rows);
     let orig = profile_rows(&p);
     let typed = profile_typed(&p);
-    c.scr.clean();
+    let before = c.before_save();
     c.run.evaluations += 1;
     let saved = catch(std::panic::AssertUnwindSafe(|| p.save()));
     let files = c.scr.files();
     let op = format!("save blueprint {} {}", orig.len(), flat(&orig));
-    let file = if saved.is_some() && files.len() == 1 && files[0].0 == "blueprint" { Some(files[0].clone()) } else { None };
+    let file = if saved.is_some() { pick(&files, c.keep, Some("blueprint".into())).filter(|f| f.0 == "blueprint") } else { None };
+    over_count(c, "blueprint", &before, &file);
     let loaded = if file.is_some() { catch(|| profile_load()) } else { None };
     let reloaded = loaded.as_ref().map(|l| profile_rows(l));
     c.run.line(&op, &answer(&file, &reloaded));
@@ -212,13 +303,20 @@ fn case_metric(c: &mut Ctx, rows: &[(u64, u32)], decl: &(Vec<String>, Vec<String
     let m = build_metric(rows);
     let orig = metric_rows(&m);
     let typed = metric_typed(&m);
-    c.scr.clean();
+    let before = c.before_save();
     c.run.evaluations += 1;
     let saved = catch(std::panic::AssertUnwindSafe(|| m.save()));
     let files = c.scr.files();
     let op = format!("save metric {} {}", orig.len(), flat(&orig));
-    let street = files.get(0).and_then(|f| f.0.strip_prefix("metric.")).and_then(street_of_suffix);
-    let file = if saved.is_some() && files.len() == 1 && street.is_some() { Some(files[0].clone()) } else { None };
+    let picked = if saved.is_some() { pick(&files, c.keep, Some(metric_expected_name(orig.len()))) } else { None };
+    let street = picked.as_ref().and_then(|f| f.0.strip_prefix("metric.")).and_then(street_of_suffix);
+    let file = if street.is_some() { picked } else { None };
+    if let Some(f) = &file {
+        if f.0 != metric_expected_name(orig.len()) {
+            c.run.fail("metric-file-name", &op[..op.len().min(200)], &metric_expected_name(orig.len()), &f.0);
+        }
+    }
+    over_count(c, "metric", &before, &file);
     let loaded = match (&file, street) {
         (Some(_), Some(s)) => catch(move || metric_load(s)),
         _ => None,
@@ -245,13 +343,16 @@ fn case_lookup(c: &mut Ctx, map: &BTreeMap<Isomorphism, Abstraction>, decl: &(Ve
     const ROLES: [&str; 2] = ["obs", "abs"];
     let orig = lookup_rows(map);
     let l = Lookup::from(map.clone());
-    c.scr.clean();
+    let before = c.before_save();
     c.run.evaluations += 1;
     let saved = catch(std::panic::AssertUnwindSafe(|| l.save()));
     let files = c.scr.files();
     let op = format!("save lookup {} {}", orig.len(), flat(&orig));
-    let street = files.get(0).and_then(|f| f.0.strip_prefix("isomorphism.")).and_then(street_of_suffix);
-    let file = if saved.is_some() && files.len() == 1 && street.is_some() { Some(files[0].clone()) } else { None };
+    let expected = map.keys().next().map(|k| format!("isomorphism.{}", k.0.street()));
+    let picked = if saved.is_some() { pick(&files, c.keep, expected) } else { None };
+    let street = picked.as_ref().and_then(|f| f.0.strip_prefix("isomorphism.")).and_then(street_of_suffix);
+    let file = if street.is_some() { picked } else { None };
+    over_count(c, "lookup", &before, &file);
     let loaded = match (&file, street) {
         (Some(_), Some(s)) => catch(move || BTreeMap::from(lookup_load(s))),
         _ => None,
@@ -275,9 +376,11 @@ fn case_lookup(c: &mut Ctx, map: &BTreeMap<Isomorphism, Abstraction>, decl: &(Ve
                 // Lookup::save derives the file name from the first key: an empty lookup cannot be
                 // written at all (it panics before touching the disk); nothing is lost or misread.
                 c.run.count("lookup empty: save panics (no file written)");
+                if !c.run.notes.iter().any(|n| n.starts_with("Lookup::save on an EMPTY")) {
                 c.run.notes.push("Lookup::save on an EMPTY lookup panics (`street()` = first key `.expect(\"non empty\")`) before any file is created: an empty isomorphism table cannot be written; the model does the same (saveLookup? = none)".into());
-                if !files.is_empty() {
-                    c.run.fail("save-fails-but-writes", &op, "no file", &format!("{:?}", files.iter().map(|f| &f.0).collect::<Vec<_>>()));
+                }
+                if files != before {
+                    c.run.fail("save-fails-but-writes", &op, "directory unchanged", &format!("{:?}", files.iter().map(|f| &f.0).collect::<Vec<_>>()));
                 }
             } else {
                 c.run.fail("save-fails", &op[..op.len().min(300)], "one file pgcopy/isomorphism.<street>", &format!("panic={} files={:?}", saved.is_none(), files.iter().map(|f| &f.0).collect::<Vec<_>>()));
@@ -301,12 +404,13 @@ fn main() {
     let run = Run::new(&out);
     quiet_panics();
     let scr = Scratch::new(&out);
-    let mut c = Ctx { run, scr };
+    let mut c = Ctx { run, scr, keep: false };
     let deep = a.thorough();
     let nrand = if deep { 20000 } else { 1500 };
     let big = if deep { 40000 } else { 4000 };
+    let nseq = if deep { 60 } else { 8 };
     c.run.rule = format!(
-        "real save()+load() in a scratch directory for blueprint/metric/isomorphism tables: empty, one row, every edge kind x every street x every special float pattern (±0, ±inf, quiet/signalling NaN payloads, MAX, MIN_POSITIVE, subnormals, REGRET_MIN), {nrand} random tables of 0..60 rows per kind, tables of thousands of rows (blueprint {big} rows; metric 8128/10296/14196 rows = the flop/turn/preflop file names; lookup per street), keys with the sign bit set; the file bytes (hex up to {HEX_LIMIT} bytes, else length+FNV-1a) and the reloaded content are compared with the Lean model; the oracle is an independent length-driven COPY reader; non-trivial = at least one row; distinct by table content");
+        "real save()+load() in a scratch directory for blueprint/metric/isomorphism tables: empty, one row, every edge kind x every street x every special float pattern (±0, ±inf, quiet/signalling NaN payloads, MAX, MIN_POSITIVE, subnormals, REGRET_MIN), {nrand} random tables of 0..60 rows per kind, tables of thousands of rows (blueprint {big} rows; metric 8128/10296/14196 rows = the flop/turn/preflop file names; lookup per street), keys with the sign bit set; the file bytes (hex up to {HEX_LIMIT} bytes, else length+FNV-1a) and the reloaded content are compared with the Lean model; plus {nseq} SEQUENCES of 12 saves per table kind into the same directory without clean-up (large, small, large, same size, empty, one row, ... so that a save lands over a longer / shorter / equal-length / identical file); after EVERY save the complete file (length and all bytes) must equal an independently written encoding of the table just saved and pass a strict COPY reader that requires end-of-file right after the trailer; non-trivial = at least one row; distinct by table content");
 
     let dp = declared::<Profile>();
     let dm = declared::<Metric>();
@@ -414,6 +518,59 @@ fn main() {
         }
         case_lookup(&mut c, &m, &dl);
     }
+    // ---------------- sequences of saves into the SAME directory (no clean-up in between): every save
+    // must leave exactly the encoding of the table just saved, whatever was there before
+    c.scr.clean();
+    c.keep = true;
+    // sizes: large, small, large again, same size/different content, empty, one row, ...
+    let sizes = |rng: &mut Rng| -> Vec<usize> {
+        let l = 40 + rng.below(200) as usize;
+        let s = 1 + rng.below(6) as usize;
+        vec![l, s, l + 7, l + 7, 0, 1, s, s, l, 0, 0, 2]
+    };
+    for _ in 0..nseq {
+        c.scr.clean();
+        for n in sizes(&mut rng) {
+            let mut rows = vec![];
+            while rows.len() < n {
+                rows.push((any_bucket(&mut rng), any_edge(&mut rng), any_f32(&mut rng), any_f32(&mut rng)));
+            }
+            case_profile(&mut c, &rows, &dp);
+        }
+        for n in sizes(&mut rng) {
+            let mut m = BTreeMap::new();
+            while m.len() < n {
+                m.insert(rng.next(), any_f32(&mut rng));
+            }
+            let rows: Vec<_> = m.into_iter().collect();
+            case_metric(&mut c, &rows, &dm);
+        }
+        let s = STREETS[rng.below(4) as usize];
+        for n in sizes(&mut rng) {
+            let mut m = BTreeMap::new();
+            let n = if s == Street::Pref { n.min(100) } else { n };
+            let mut tries = 0;
+            while m.len() < n && tries < 100 * (n + 1) {
+                m.insert(any_isomorphism(&mut rng, s), any_abstraction(&mut rng, Some(s)));
+                tries += 1;
+            }
+            case_lookup(&mut c, &m, &dl); // n = 0: save panics and must leave the directory alone
+        }
+    }
+    // the flop/turn/preflop metric names too: a small metric (-> metric.river) never touches them,
+    // and re-saving a special count over its own file
+    {
+        c.scr.clean();
+        for n in [8128usize, 3, 8128, 0, 8128] {
+            let mut m = BTreeMap::new();
+            while m.len() < n {
+                m.insert(rng.next(), any_f32(&mut rng));
+            }
+            let rows: Vec<_> = m.into_iter().collect();
+            case_metric(&mut c, &rows, &dm);
+        }
+    }
+    c.keep = false;
     c.run.exhaustive = false;
     c.scr.clean();
     c.run.finish();
